@@ -761,3 +761,55 @@ pub fn scc_capture(rng: &mut Rng) -> String {
     }
     o
 }
+
+/// Prunable-looking stores whose initialiser calls SEVERAL distinct user functions of different effect
+/// classes (seed C03-d2: the effective class of a statement folded over its callees with an early exit,
+/// so only the first recorded callee counted): pure helpers mixed, in every order and nesting, with
+/// helpers that print, write a captured variable, or may trap; the stored variable is never read, or
+/// overwritten before it is read.
+pub fn multi_callee_store(rng: &mut Rng) -> String {
+    let tag = rng.below(90) + 10;
+    let mut o = format!("make calls{tag} get 0\n");
+    // helpers: (name, definition, call text generator index)
+    let pure1 = format!("p{tag}a");
+    let pure2 = format!("p{tag}b");
+    let noisy = format!("n{tag}");
+    let writer = format!("w{tag}");
+    let trap = format!("t{tag}");
+    o.push_str(&format!("do {pure1}(v) start return v end\n"));
+    o.push_str(&format!("do {pure2}() start return 1 end\n"));
+    o.push_str(&format!("do {noisy}(s) start shout(\"noisy \" add s) return 2 end\n"));
+    o.push_str(&format!("do {writer}() start calls{tag} get calls{tag} add 1 return 3 end\n"));
+    o.push_str(&format!("do {trap}(d) start return 7 divide d end\n"));
+    let scenarios = 2 + rng.below(3);
+    for k in 0..scenarios {
+        let v = format!("u{tag}_{k}");
+        let eff = match rng.below(4) {
+            0 => format!("{noisy}(\"k{k}\")"),
+            1 => format!("{writer}()"),
+            2 => format!("{trap}({})", if rng.chance(1, 2) { "0" } else { "2" }),
+            _ => format!("{noisy}(\"x\") add {writer}()"),
+        };
+        let p1 = format!("{pure1}({})", rng.below(9));
+        let p2 = format!("{pure2}()");
+        // every position of the effectful callee relative to the pure ones
+        let init = match rng.below(8) {
+            0 => format!("{pure1}({eff})"),                 // pure outermost, effect as its argument
+            1 => format!("[{p2}, {eff}]"),                  // pure leftmost in a literal
+            2 => format!("[{eff}, {p2}]"),
+            3 => format!("{p1} add {eff}"),
+            4 => format!("{eff} add {p1}"),
+            5 => format!("{pure1}({pure1}({eff}))"),
+            6 => format!("[{p2}, {p1}, {eff}, {p2}]"),
+            _ => format!("{pure1}([{p2}, {eff}][1])"),
+        };
+        match rng.below(3) {
+            0 => o.push_str(&format!("make {v} get {init}\n")),
+            1 => o.push_str(&format!("make {v} get 0\n{v} get {init}\n{v} get 5\nshout({v})\n")),
+            _ => o.push_str(&format!("do h{tag}_{k}() start make {v} get {init} return 0 end\nshout(h{tag}_{k}())\n")),
+        }
+        o.push_str(&format!("shout(calls{tag})\n"));
+    }
+    o.push_str("shout(\"end\")\n");
+    o
+}
